@@ -120,3 +120,39 @@ Proof. vm_compute. reflexivity. Qed.
 Theorem C01_no_bare_word_exemption : TablesOK.tables_ok_bare current = true.
 Proof. vm_compute. reflexivity. Qed.
 Print Assumptions C01_no_bare_word_exemption.
+
+(* ---------- the places walked by the query walker: no condition on names ---------- *)
+From Proofs Require Import QuerySurvivors.
+
+(* For query / filter / sort / q / update / u documents and update / u / updates / deletes / documents arrays - everything
+   except aggregation pipelines - the claim needs no "clear path" in terms of NAMES: the query walker and the array walker
+   never call the pipeline walker, and what they keep is decided by two table lookups. [qcl] replays those lookups along
+   the index path; where none of them answers "exempt" (and the leaf is not a $binary.subType) the output leaf is the
+   strong verdict. A user field may be called type, path, index, subType, limit, ...: see the example. *)
+Theorem C01_query_places_any_names : forall tb cs c A ins k v p leaf,
+  re c = None -> qzone ins k v = true -> nodup_keys v ->
+  jget v p = Some leaf -> is_leaf leaf -> qcl tb c (qstart v) v p = true ->
+  exists d, strong cs c leaf d /\ jget (cmd_member tb cs c A false ins k v) p = Some (apply_verdict A d leaf).
+Proof. intros tb cs c A ins k v p leaf H. exact (cmd_member_qcl tb cs c A H ins k v p leaf). Qed.
+Print Assumptions C01_query_places_any_names.
+
+(* ... and the lookups answer nothing for a user field: a key that is no entry of the core table, under a key path whose
+   first key is no entry of the stage table, is never exempt (whatever the tables say about that NAME elsewhere) *)
+Theorem C01_user_field_never_exempt : forall tb kp k,
+  oget (Core tb) k = None ->
+  (match (kp ++ [k])%list with x :: _ => oget (Agg tb) x = None | [] => True end) ->
+  exempt_key tb kp k false = false.
+Proof. exact exempt_key_user. Qed.
+Print Assumptions C01_user_field_never_exempt.
+
+(* non-vacuity: user fields named like operator arguments and keywords; every literal is on a qcl path and is replaced *)
+Definition ex_names : json :=
+  JObj [("type", JStr "S1"); ("path", JObj [("$in", JArr [JStr "S2"; JStr "S3"])]); ("index", JObj [("subType", JStr "S4"); ("limit", JStr "S5")]);
+        ("$or", JArr [JObj [("from", JStr "S6")]; JObj [("as", JObj [("$ne", JStr "S7")])]])].
+Example C01_any_names_example :
+  let c := {| repl := "R"; nums := false; bools := false; ips := false; nss := false; eager := nil; re := None |} in
+  forallb (qcl current c (qstart ex_names) ex_names) [[0]; [1; 0; 0]; [1; 0; 1]; [2; 0]; [2; 1]; [3; 0; 0]; [3; 1; 0; 0]] = true /\
+  cmd_member current current_consts c (real_actions current_consts c None) false false "filter" ex_names =
+  JObj [("type", JStr "R"); ("path", JObj [("$in", JArr [JStr "R"; JStr "R"])]); ("index", JObj [("subType", JStr "R"); ("limit", JStr "R")]);
+        ("$or", JArr [JObj [("from", JStr "R")]; JObj [("as", JObj [("$ne", JStr "R")])]])].
+Proof. vm_compute. split; reflexivity. Qed.
